@@ -1129,7 +1129,7 @@ func r117(c *Ctx, r *R) {
 }
 
 func init() {
-	register(&Rule{ID: "R15.10", Props: []string{"C15", "C07"}, Floor: 4, Title: "list settings are replaced, not accumulated: a loader that appends to a configuration field first stores a fresh value into it (loaders run on already-loaded configurations: ApplyEnvVars after LoadJSON)", Run: r1510})
+	register(&Rule{ID: "R15.10", Props: []string{"C15", "C07"}, Floor: 2, Title: "list settings are replaced, not accumulated: a loader that appends to a configuration field first stores a fresh value into it (loaders run on already-loaded configurations: ApplyEnvVars after LoadJSON)", Run: r1510})
 }
 
 func r1510(c *Ctx, r *R) {
